@@ -47,6 +47,12 @@ ITER_TECH = ("TLA+ model checking: MC_Iter.tla enumerates module/component metad
 CHECKS["C25"] = ("iter-family", ITER_TECH, "ModuleIterator: construction, curr_loc (function, instruction, end flag, operator), every next() result and reset() on all modules with 0-3 local functions of 1-3 instructions, with/without imports, every skip subset (incl. all skipped, first skipped, unknown IDs)", "DESIGN.md 6 C25")
 CHECKS["C26"] = ("iter-family", ITER_TECH, "ComponentIterator: same judgement across 1-2 core modules with per-module skip lists (incl. empty modules and skipped trailing functions), plus byte equality of every module encoded after the same plan was applied through a ComponentIterator and through per-module ModuleIterators", "DESIGN.md 6 C26")
 
+CHECKS["C27"] = ("comp-family", "TLA+ model checking: CompNest.tla enumerates nested component trees (depth <= 4), checks that the transcribed "
+   "parse algorithm reconstructs every tree from its flat payload stream (Impl => Ideal) and documents the former algorithm's "
+   "failure (ASSUME); each tree is built, round-tripped by the real Component::parse/encode (replay) and judged by CompTrace.tla",
+   "every tree of <= 5 items (core modules, type definitions, custom sections, nested components) up to nesting depth 4: the output must validate, decode to the same item tree in the same order at every depth, and encode idempotently",
+   "DESIGN.md 6 C27")
+
 checks = []
 for p in props:
     if p in CHECKS:
@@ -77,7 +83,9 @@ m = {"version": 1,
         {"name": "lowering-family", "path": "lib/fam_lower.py", "serves_properties": [p for p in props if p in CHECKS and CHECKS[p][0] == "lowering-family"] + ["C04", "C05"],
          "kind_free_text": "TLC (MC_Lower.tla generator) + seeded random generator -> real injection APIs + encode -> TLC as execution engine (LowerTrace.tla over Exec.tla / ProbeIdeal.tla)"},
         {"name": "iter-family", "path": "lib/fam_iter.py", "serves_properties": ["C25", "C26"],
-         "kind_free_text": "TLC (MC_Iter.tla over IterIdeal.tla) -> real ModuleIterator/ComponentIterator -> TLC trace validation (IterTrace.tla)"}],
+         "kind_free_text": "TLC (MC_Iter.tla over IterIdeal.tla) -> real ModuleIterator/ComponentIterator -> TLC trace validation (IterTrace.tla)"},
+        {"name": "comp-family", "path": "lib/fam_comp.py", "serves_properties": ["C27"],
+         "kind_free_text": "TLC (CompNest.tla) -> wasm-encoder built nested components -> Component::parse/encode -> TLC trace validation (CompTrace.tla)"}],
      "checks": checks,
      "not_applicable": na,
      "notes": "All checks share one stage cache per family keyed by the hash of /repo/src + Cargo files and of /verif's specs/harness, so the first check of a family pays for the campaign. fix: commits in /repo: " + " ".join(fix_commits)}
